@@ -7,6 +7,7 @@ import (
 	"bytes"
 	"encoding/binary"
 	"fmt"
+	"sort"
 	"sync"
 	"time"
 
@@ -94,8 +95,10 @@ func assemble(side string, window, hidden []byte) []byte {
 var sweepLengths = []int{1, 2, 3, 4, 5, 7, 8, 9, 12, 13, 15, 16, 17, 24, 31, 32, 33, 34, 47, 64, 100, 255, 300}
 
 // plain: window and hidden part of one content class; n swept over 0..len+1 with weight on the edges.
-func (b *builder) plain() spec {
-	s := b.baseSpec()
+func (b *builder) plain() spec { return b.plainFrom(b.baseSpec()) }
+
+// plainFrom is plain() over a given base (keystore, envelope, side, pattern, pipeline already chosen).
+func (b *builder) plainFrom(s spec) spec {
 	L := sweepLengths[b.rng.Intn(len(sweepLengths))]
 	var n int
 	switch b.rng.Intn(8) {
@@ -356,11 +359,74 @@ func (b *builder) hashWindow() spec {
 	return b.finish(s)
 }
 
-func (b *builder) short() spec {
-	s := b.baseSpec()
+func (b *builder) short() spec { return b.shortFrom(b.baseSpec()) }
+
+func (b *builder) shortFrom(s spec) spec {
 	L := b.rng.Intn(20)
 	n := L + []int{0, 0, 1, 5, L + 3}[b.rng.Intn(5)]
 	return b.plainWith(s, L, n, b.pick([]string{"random", "ascii", "utf8"}))
+}
+
+// ---- keyword spellings in the configuration file ----
+
+// spellingVariant is one way of writing a keyword-valued masking option other than the canonical lower-case word.
+// Whether Acra accepts such a configuration is NOT demanded either way; an accepted one must behave as the keyword means.
+type spellingVariant struct {
+	option  string // plaintext_side | crypto_envelope | data_type
+	text    string // as written (always put in YAML double quotes, so leading / trailing blanks survive the YAML reader)
+	meaning string // the keyword lower-cased and trimmed
+	control bool   // canonical word, only written through the same quoting path (rig control)
+}
+
+func spellingVariants() []spellingVariant {
+	var out []spellingVariant
+	add := func(option, meaning string, texts ...string) {
+		out = append(out, spellingVariant{option, meaning, meaning, true})
+		for _, t := range texts {
+			out = append(out, spellingVariant{option, t, meaning, false})
+		}
+	}
+	add("plaintext_side", "left", "Left", "LEFT", "lEfT", " left", "left ")
+	add("plaintext_side", "right", "Right", "RIGHT", "rIGHt", " right", "right ")
+	add("crypto_envelope", "acrastruct", "AcraStruct", "ACRASTRUCT", "acrastruct ")
+	add("crypto_envelope", "acrablock", "AcraBlock", "ACRABLOCK", " acrablock")
+	add("data_type", "str", "Str", "STR")
+	add("data_type", "bytes", "Bytes", "BYTES")
+	return out
+}
+
+// spelled builds one case whose configuration writes v.text for v.option; every other keyword is canonical.
+func (b *builder) spelled(v spellingVariant, i int) spec {
+	s := b.baseSpec()
+	switch v.option {
+	case "plaintext_side":
+		s.Set.Side = v.meaning
+	case "crypto_envelope":
+		s.Set.Envelope = v.meaning
+	default:
+		// a data type goes with the envelopes Acra's validation admits it for (probed at start-up with the canonical word)
+		if !b.dtypeOK[s.Set.Envelope+"|"+v.meaning] {
+			for _, e := range []string{"acrastruct", "acrablock"} {
+				if b.dtypeOK[e+"|"+v.meaning] {
+					s.Set.Envelope = e
+				}
+			}
+		}
+	}
+	if i%6 == 5 {
+		s = b.shortFrom(s)
+	} else {
+		s = b.plainFrom(s)
+	}
+	switch v.option {
+	case "plaintext_side":
+		s.Set.SideText = v.text
+	case "crypto_envelope":
+		s.Set.EnvelopeText = v.text
+	default:
+		s.Set.DType, s.Set.DTypeText = v.meaning, v.text
+	}
+	return s
 }
 
 // ---- the monitor's own structural view of stored bytes ----
@@ -436,6 +502,11 @@ func judge(r *ev.Run, s spec, res result) {
 	short := len(x) <= n
 	s.Cause = refineCause(s, x)
 	sigTail := fmt.Sprintf("side=%s short=%v envelope=%s pattern=%s pipeline=%s cause=%s", s.Set.Side, short, s.Set.Envelope, patternName(s.Set.Pattern), s.Pipeline, s.Cause)
+	spelling := s.Set.spelling()
+	if spelling != "" {
+		// the configuration writes a keyword in a non-canonical spelling that Acra ACCEPTED at load time: side / envelope above are its meaning
+		sigTail += " accepted-config-spelling=" + spelling
+	}
 	detail := func(extra map[string]interface{}) map[string]interface{} {
 		m := map[string]interface{}{"keystore": s.KS, "setting": s.Set, "pipeline": s.Pipeline, "class": s.Class, "cause": s.Cause, "value": ev.FullHex(x), "value_len": len(x),
 			"stored": ev.FullHex(res.Stored), "marker_in_hidden_part": string(s.Marker), "seed": r.Seed, "isolated_child": s.Hostile}
@@ -584,7 +655,11 @@ func judge(r *ev.Run, s spec, res result) {
 		nClass = "1"
 	}
 	r.SetAdd("window_lengths_seen", fmt.Sprint(n))
-	r.Distinct(fmt.Sprintf("%s|%s|%s|%s|%s|%s|%s|n=%s", s.KS, s.Set.Envelope, s.Set.Side, patternName(s.Set.Pattern), orDefault(s.Set.DType), s.Pipeline, s.Cause, nClass))
+	if spelling != "" {
+		r.Count("ok:accepted_config_spelling", 1)
+		r.SetAdd("accepted_config_spellings_behaving_as_the_keyword_means", spelling)
+	}
+	r.Distinct(fmt.Sprintf("%s|%s|%s|%s|%s|%s|%s|n=%s|%s", s.KS, s.Set.Envelope, s.Set.Side, patternName(s.Set.Pattern), orDefault(s.Set.DType), s.Pipeline, s.Cause, nClass, spelling))
 	r.SampleN("ok:"+s.Class, 1, map[string]interface{}{"keystore": s.KS, "setting": s.Set, "pipeline": s.Pipeline, "class": s.Class, "value": ev.Hex(x), "stored": ev.Hex(res.Stored),
 		"owner_gets": ev.Hex(res.Reads["owner"].Out), "client_without_keys_gets": ev.Hex(res.Reads["client-without-keys"].Out), "client_with_other_keys_gets": ev.Hex(res.Reads["client-with-other-keys"].Out)})
 }
@@ -660,6 +735,59 @@ func Run(r *ev.Run) {
 		s.Class, s.Cause = "empty", "empty"
 		s.Parts = []part{{Lit: []byte{}}}
 		specs = append(specs, b.finish(s))
+	}
+	// keyword spellings: each variant is loaded by Acra's configuration reader, setting by setting; a refused one is only
+	// counted, an accepted one joins the schema and is judged by the window oracles with the keyword's meaning
+	{
+		perVariant := r.Pick(24, 120)
+		probed := map[string]bool{}
+		acceptedTexts, refusedTexts := map[string]bool{}, map[string]bool{}
+		for _, v := range spellingVariants() {
+			label := fmt.Sprintf("%s:%q", v.option, v.text)
+			for i := 0; i < perVariant; i++ {
+				s := b.spelled(v, i)
+				k := s.Set.key()
+				ok, seen := probed[k]
+				if !seen {
+					err := settingAccepted(s.Set)
+					ok = err == nil
+					probed[k] = ok
+					r.Count("config_spelling_settings_loaded", 1)
+					if err != nil {
+						r.SampleN("config-spelling-refused:"+label, 1, map[string]interface{}{"setting": s.Set, "refused_with": err.Error()})
+					}
+				}
+				switch {
+				case v.control && ok:
+					r.Count("config_spelling_control_canonical_word_accepted", 1)
+				case v.control:
+					r.Count("config_spelling_control_canonical_word_refused", 1)
+				case ok:
+					r.Count("config_spelling_variant_cases_accepted_at_load", 1)
+					acceptedTexts[label] = true
+				default:
+					r.Count("config_spelling_variant_cases_refused_at_load(not judged)", 1)
+					refusedTexts[label] = true
+				}
+				if !v.control {
+					r.SetAdd("config_spelling_variants_offered", label)
+				}
+				if ok {
+					s.Class = "config-spelling:" + s.Class
+					specs = append(specs, s)
+				}
+			}
+		}
+		keys := func(m map[string]bool) []string {
+			var o []string
+			for k := range m {
+				o = append(o, k)
+			}
+			sort.Strings(o)
+			return o
+		}
+		r.Extra("config_spellings_accepted_at_load", keys(acceptedTexts))
+		r.Extra("config_spellings_refused_at_load", keys(refusedTexts))
 	}
 	if r.Thorough() {
 		// full sweep: every n in 0..len+1 for len <= 40 (and a few longer), both sides, both envelopes, every pattern
@@ -743,6 +871,16 @@ func Run(r *ev.Run) {
 		r.RequireAtLeast("ok:pattern="+p.name, 100)
 	}
 	r.RequireSetAtLeast("window_lengths_seen", 40)
+	nVariants := 0
+	for _, v := range spellingVariants() {
+		if !v.control {
+			nVariants++
+		}
+	}
+	r.RequireSetAtLeast("config_spelling_variants_offered", nVariants)
+	r.RequireAtLeast("config_spelling_settings_loaded", int64(nVariants*10))
+	// rig control: the canonical word written through the same quoting path loads and is judged (otherwise "refused" proves nothing)
+	r.RequireAtLeast("config_spelling_control_canonical_word_accepted", 100)
 	if ProxyLayer != nil {
 		ProxyLayer(r)
 	}
